@@ -1150,37 +1150,113 @@ var _ = sort.Strings
 // the allocation function itself does not run it.
 func ruleInitializersOnce(w *World, r *Report, rule string) {
 	ro := resolveRoles(w)
-	ns := ro.newScope
-	if ns == nil {
-		r.Undecided(rule, "newScope", token.NoPos, "newScope not found")
-		return
+	// initialised(f): every success exit of f (a function returning a scope and an error) returns a
+	// scope on which the initializer pass has run exactly once - called on that very scope, directly
+	// or inside a function that itself satisfies this. The receiver of the pass matters: a pass run
+	// on another scope (the parent) does not initialise the new one and re-runs the other's.
+	memo := map[*FuncInfo]string{}
+	var initialised func(f *FuncInfo, depth int) string
+	isScopeType := func(t types.Type) bool {
+		return isNamedType(t, modPath, "scope") || isNamedType(t, modPath, "Scope")
 	}
-	info := ns.Pkg.TypesInfo
-	fl := w.FlowOf(ns)
-	count := func(must bool) *Sol {
-		return fl.Solve(Spec{Must: must, Node: func(n ast.Node, in Facts) (gen, kill []string) {
+	initialised = func(f *FuncInfo, depth int) string {
+		if v, ok := memo[f]; ok {
+			return v
+		}
+		memo[f] = "recursive"
+		info := f.Pkg.TypesInfo
+		fl := w.FlowOf(f)
+		var recv types.Object
+		if f.Decl.Recv != nil && len(f.Decl.Recv.List[0].Names) == 1 {
+			recv = info.Defs[f.Decl.Recv.List[0].Names[0]]
+		}
+		foreign := ""
+		gen := func(n ast.Node, in Facts) (out []string) {
+			add := func(o types.Object) {
+				if o == nil {
+					return
+				}
+				if in.Has("init1:" + o.Name()) {
+					out = append(out, "init2:"+o.Name())
+				}
+				out = append(out, "init1:"+o.Name())
+			}
 			for _, c := range callsIn(n, false) {
-				if callee(info, c) == ro.runInits.Obj {
-					if in.Has("init1") {
-						gen = append(gen, "init2")
+				cal := callee(info, c)
+				if cal == nil {
+					continue
+				}
+				if cal == ro.runInits.Obj {
+					rcv, _, _ := methodCall(c)
+					o := objOf(info, rcv)
+					add(o)
+					if o != nil && o == recv && f != ro.runInits {
+						foreign = "the initializer pass is run on the receiver " + o.Name() + " at " + w.Pos(c.Pos()) + ", not on the scope being created"
 					}
-					gen = append(gen, "init1")
+					continue
+				}
+				// v, err := g(...) with g initialising its result
+				if t := w.Decls[cal]; t != nil && depth > 0 && t != f {
+					sig := cal.Type().(*types.Signature)
+					if sig.Results().Len() == 2 && isScopeType(sig.Results().At(0).Type()) && isErrorType(sig.Results().At(1).Type()) {
+						if as, ok := n.(*ast.AssignStmt); ok && len(as.Rhs) == 1 && unparen(as.Rhs[0]) == ast.Expr(c) && len(as.Lhs) == 2 {
+							if initialised(t, depth-1) == "" {
+								add(objOf(info, as.Lhs[0]))
+							}
+						}
+					}
 				}
 			}
 			return
-		}})
-	}
-	must, may := count(true), count(false)
-	n := 0
-	for _, ex := range fl.Exits() {
-		if ex.Ret == nil || len(ex.Ret.Results) != 2 || !isNilIdent(info, ex.Ret.Results[1]) {
-			continue
 		}
-		n++
-		ok := must.AtExit(ex).Has("init1") && !may.AtExit(ex).Has("init2")
-		r.Check(ok, rule, fmt.Sprintf("%s#success-exit/%d", ns.Name(), n), ex.Pos, true,
-			"a scope is handed out only after exactly one initializer pass",
-			"newScope can return a scope on a path that ran the initializer pass "+map[bool]string{true: "more than once", false: "not at all"}[must.AtExit(ex).Has("init1")])
+		must := fl.Solve(Spec{Must: true, Node: func(n ast.Node, in Facts) ([]string, []string) { return gen(n, in), nil }})
+		may := fl.Solve(Spec{Must: false, Node: func(n ast.Node, in Facts) ([]string, []string) { return gen(n, in), nil }})
+		bad := ""
+		n := 0
+		for _, ex := range fl.Exits() {
+			if ex.Ret == nil || len(ex.Ret.Results) != 2 || !isNilIdent(info, ex.Ret.Results[1]) {
+				continue
+			}
+			o := objOf(info, ex.Ret.Results[0])
+			if o == nil {
+				// return newScope(...): a tail call
+				if c, ok := unparen(ex.Ret.Results[0]).(*ast.CallExpr); ok {
+					if t := w.Decls[callee(info, c)]; t != nil && depth > 0 && initialised(t, depth-1) == "" {
+						n++
+						continue
+					}
+				}
+				bad = "the success exit at " + w.Pos(ex.Pos) + " returns " + exprStr(ex.Ret.Results[0]) + ", whose initialisation cannot be traced"
+				continue
+			}
+			n++
+			switch {
+			case !must.AtExit(ex).Has("init1:" + o.Name()):
+				bad = "the scope returned at " + w.Pos(ex.Pos) + " (" + o.Name() + ") can be handed out without the initializer pass having run on it"
+			case may.AtExit(ex).Has("init2:" + o.Name()):
+				bad = "the scope returned at " + w.Pos(ex.Pos) + " can have run the initializer pass more than once"
+			}
+		}
+		if bad == "" && foreign != "" {
+			bad = foreign
+		}
+		if bad == "" && n == 0 {
+			bad = "no success exit"
+		}
+		memo[f] = bad
+		return bad
+	}
+	for _, owner := range []string{"scope", "provider"} {
+		fi := w.MustFn(w.Godi, "(*"+owner+").CreateScope")
+		r.Analysed(fi)
+		bad := initialised(fi, 3)
+		r.Check(bad == "", rule, fi.Name()+"#initialised-once", fi.Decl.Pos(), true,
+			"every scope handed to a caller has had exactly one initializer pass, run on that scope", fi.Name()+": "+bad+": scoped initialization functions do not run for the new scope (or run again for another)")
+	}
+	if ns := ro.newScope; ns != nil {
+		r.Analysed(ns)
+		bad := initialised(ns, 2)
+		r.Check(bad == "", rule, ns.Name()+"#initialised-once", ns.Decl.Pos(), true, "a scope is handed out only after exactly one initializer pass", ns.Name()+": "+bad)
 	}
 	// loop body of the pass: one createInstance, no retry
 	ri := ro.runInits
@@ -1192,20 +1268,6 @@ func ruleInitializersOnce(w *World, r *Report, rule string) {
 		}
 	}
 	r.Check(calls == 1, rule, ri.Name()+"#one-call-per-initializer", ri.Decl.Pos(), false, "each initializer is constructed once per pass", fmt.Sprintf("the initializer pass has %d createInstance call sites", calls))
-	// both CreateScope functions create through newScope
-	for _, owner := range []string{"scope", "provider"} {
-		fi := w.MustFn(w.Godi, "(*"+owner+").CreateScope")
-		uses := false
-		for _, c := range callsIn(fi.Decl.Body, true) {
-			if cal := callee(fi.Pkg.TypesInfo, c); cal == ns.Obj {
-				uses = true
-			}
-			if cal := callee(fi.Pkg.TypesInfo, c); cal != nil && cal == ro.allocScope.Obj && ro.allocScope != ns {
-				uses = false
-			}
-		}
-		r.Check(uses, rule, fi.Name()+"#creates-through-newScope", fi.Decl.Pos(), false, "scopes handed to callers are created by newScope (allocation + initializer pass)", fi.Name()+" does not create its scope through newScope: the scoped initialization functions do not run for it")
-	}
 }
 
 // ruleArgsPerInvocation: R03.3b.
@@ -1222,6 +1284,7 @@ func ruleArgsPerInvocation(w *World, r *Report, rule string) {
 		}
 		info := fi.Pkg.TypesInfo
 		ok := false
+		conditional := ""
 		ast.Inspect(fi.Decl.Body, func(x ast.Node) bool {
 			var body *ast.BlockStmt
 			switch l := x.(type) {
@@ -1239,10 +1302,40 @@ func ruleArgsPerInvocation(w *World, r *Report, rule string) {
 				}
 				if n == 1 {
 					ok = true
+					// … and on every iteration that is not skipped: the call may depend only on the
+					// loop's skip guards (`if cond { continue }`), never on "already resolved" tests
+					for _, c := range callsIn(body, false) {
+						if cal := callee(info, c); !w.IsFn(cal, w.Refl, s.callee) {
+							continue
+						}
+						conds, vals := controllingCondsInfo(info, body, c.Pos())
+						for i, cd := range conds {
+							guard := false
+							ast.Inspect(body, func(y ast.Node) bool {
+								if ifs, isIf := y.(*ast.IfStmt); isIf && ifs.Cond == cd && len(ifs.Body.List) >= 1 {
+									if br, isBr := ifs.Body.List[len(ifs.Body.List)-1].(*ast.BranchStmt); isBr && br.Tok == token.CONTINUE && !vals[i] {
+										guard = true
+									}
+									if _, isRet := ifs.Body.List[len(ifs.Body.List)-1].(*ast.ReturnStmt); isRet && !vals[i] {
+										guard = true // an error exit taken before the call
+									}
+								}
+								return true
+							})
+							if !guard {
+								conditional = "the resolution at " + w.Pos(c.Pos()) + " only happens when " + exprStr(cd) + " is " + fmt.Sprint(vals[i])
+							}
+						}
+					}
 				}
 			}
 			return true
 		})
+		if conditional != "" {
+			r.Fail(rule, top.Name()+"#resolved-every-iteration", top.Decl.Pos(), "%s: %s - a parameter can be filled from an earlier resolution (two parameters of one transient type receive the same instance)", top.Name(), conditional)
+		} else {
+			r.OK(rule, top.Name()+"#resolved-every-iteration", top.Decl.Pos(), true, "the resolver is called on every iteration that is not skipped")
+		}
 		// the argument slice is allocated per call
 		fresh := true
 		ast.Inspect(fi.Decl.Body, func(x ast.Node) bool {
